@@ -383,7 +383,13 @@ pub fn shapes(args: &Args) -> SubResult {
                     None => format!("exit{}", s.code().unwrap_or(-1)),
                 };
                 if s.code() == Some(2) {
-                    // the scheduler's watchdog: the thread holding the token reached no scheduling point for 45 s
+                    // the child's own machinery gave up (e.g. the code under test blocks in a primitive the
+                    // scheduler does not own): no verdict for this shape, and none is invented
+                    eprintln!("MACHINERY: the child process of shape {scripts:?} ended with a machinery failure (exit 2)");
+                    std::process::exit(2);
+                }
+                if s.code() == Some(ds::EXIT_CPU_BURNT) {
+                    // the scheduler's watchdog: 45 s of CPU time were burnt without reaching a scheduling point
                     res.violation("c08_shapes:no-progress".to_string(), format!("a thread computed for more than 45 s without reaching any synchronisation or I/O operation while hot-reloading the look-up graph {scripts:?} (unbounded work)"), replay);
                 } else {
                     res.violation(format!("c08_shapes:crash[{how}]"), format!("the process died ({s}) while hot-reloading the look-up graph {scripts:?}"), replay);
